@@ -251,6 +251,38 @@ const HTTP_R_FED_MEDIA: &[&str] = &[
     "404\nContent-Type: application/json\n\n{\"errcode\":\"M_NOT_FOUND\",\"error\":\"nope\"}",
 ];
 
+const HTTP_R_STORE_INVITATION: &[&str] = &[
+    "200\nContent-Type: application/json\n\n{\"token\":\"sometoken\",\"public_keys\":[{\"public_key\":\"GNJNmT7HUzsJ4pbSUd1Hr1pJLmcJwY1pwS9cGzmSOHU\",\"key_validity_url\":\"https://id.example.org/_matrix/identity/v2/pubkey/isvalid\"},{\"public_key\":\"o7mbBCRP1kaY6vnRfZIWgU1mpp8_gQ0RESq8pgpXBw0\",\"key_validity_url\":\"https://id.example.org/_matrix/identity/v2/pubkey/ephemeral/isvalid\"}],\"display_name\":\"f...@b...\"}",
+    "200\nContent-Type: application/json\n\n{\"token\":\"t\",\"public_keys\":[{\"public_key\":\"GNJNmT7HUzsJ4pbSUd1Hr1pJLmcJwY1pwS9cGzmSOHU\",\"key_validity_url\":\"https://id.example.org/_matrix/identity/v2/pubkey/isvalid\"}],\"display_name\":\"x\"}",
+    "200\nContent-Type: application/json\n\n{\"token\":\"t\",\"public_keys\":[{\"public_key\":\"GNJNmT7HUzsJ4pbSUd1Hr1pJLmcJwY1pwS9cGzmSOHU\",\"key_validity_url\":\"https://id.example.org/_matrix/identity/v2/pubkey/isvalid\"},{\"public_key\":\"o7mbBCRP1kaY6vnRfZIWgU1mpp8_gQ0RESq8pgpXBw0\",\"key_validity_url\":\"https://id.example.org/_matrix/identity/v2/pubkey/ephemeral/isvalid\"},{\"public_key\":\"GNJNmT7HUzsJ4pbSUd1Hr1pJLmcJwY1pwS9cGzmSOHU\",\"key_validity_url\":\"https://id.example.org/_matrix/identity/v2/pubkey/isvalid\"}],\"display_name\":\"x\"}",
+    "200\nContent-Type: application/json\n\n{\"token\":\"t\",\"public_keys\":[],\"display_name\":\"x\"}",
+    "403\nContent-Type: application/json\n\n{\"errcode\":\"M_FORBIDDEN\",\"error\":\"no\"}",
+];
+const HTTP_R_LOOKUP_3PID: &[&str] = &[
+    "200\nContent-Type: application/json\n\n{\"mappings\":{\"4kenr7N9drpCJ4AfalmlGQVsOn3o2RHjkADUpXJWZUc\":\"@alice:example.org\",\"x\":\"@bob:example.org\"}}",
+    "200\nContent-Type: application/json\n\n{\"mappings\":{}}",
+];
+const HTTP_R_GET_MISSING_EVENTS: &[&str] = &[
+    "200\nContent-Type: application/json\n\n{\"events\":[{\"room_id\":\"!room:example.org\",\"sender\":\"@alice:example.org\",\"origin_server_ts\":1000,\"type\":\"m.room.message\",\"content\":{\"msgtype\":\"m.text\",\"body\":\"hi\"},\"prev_events\":[\"$Rqnc-F-dvnEYJTyHq_iKxU2bZ1CI92-kuZq3a5lr5Zg\"],\"depth\":12,\"auth_events\":[],\"hashes\":{\"sha256\":\"x\"},\"signatures\":{\"example.org\":{\"ed25519:1\":\"sig\"}}},{\"room_id\":\"!room:example.org\",\"sender\":\"@alice:example.org\",\"origin_server_ts\":1000,\"type\":\"m.room.message\",\"content\":{\"msgtype\":\"m.text\",\"body\":\"hi\"},\"prev_events\":[\"$Rqnc-F-dvnEYJTyHq_iKxU2bZ1CI92-kuZq3a5lr5Zg\"],\"depth\":12,\"auth_events\":[],\"hashes\":{\"sha256\":\"x\"},\"signatures\":{\"example.org\":{\"ed25519:1\":\"sig\"}}}]}",
+    "200\nContent-Type: application/json\n\n{\"events\":[]}",
+];
+const HTTP_R_SEND_TRANSACTION: &[&str] = &[
+    "200\nContent-Type: application/json\n\n{\"pdus\":{\"$1failed_event:example.org\":{\"error\":\"You are not allowed to send a message to this room.\"},\"$1successful_event:example.org\":{}}}",
+    "200\nContent-Type: application/json\n\n{\"pdus\":{}}",
+];
+const HTTP_R_CREATE_JOIN: &[&str] = &[
+    "200\nContent-Type: application/json\n\n{\"auth_chain\":[{\"room_id\":\"!room:example.org\",\"sender\":\"@alice:example.org\",\"origin_server_ts\":1000,\"type\":\"m.room.message\",\"content\":{\"msgtype\":\"m.text\",\"body\":\"hi\"},\"prev_events\":[\"$Rqnc-F-dvnEYJTyHq_iKxU2bZ1CI92-kuZq3a5lr5Zg\"],\"depth\":12,\"auth_events\":[],\"hashes\":{\"sha256\":\"x\"},\"signatures\":{\"example.org\":{\"ed25519:1\":\"sig\"}}}],\"state\":[{\"room_id\":\"!room:example.org\",\"sender\":\"@alice:example.org\",\"origin_server_ts\":1000,\"type\":\"m.room.message\",\"content\":{\"msgtype\":\"m.text\",\"body\":\"hi\"},\"prev_events\":[\"$Rqnc-F-dvnEYJTyHq_iKxU2bZ1CI92-kuZq3a5lr5Zg\"],\"depth\":12,\"auth_events\":[],\"hashes\":{\"sha256\":\"x\"},\"signatures\":{\"example.org\":{\"ed25519:1\":\"sig\"}}},{\"room_id\":\"!room:example.org\",\"sender\":\"@alice:example.org\",\"origin_server_ts\":1000,\"type\":\"m.room.message\",\"content\":{\"msgtype\":\"m.text\",\"body\":\"hi\"},\"prev_events\":[\"$Rqnc-F-dvnEYJTyHq_iKxU2bZ1CI92-kuZq3a5lr5Zg\"],\"depth\":12,\"auth_events\":[],\"hashes\":{\"sha256\":\"x\"},\"signatures\":{\"example.org\":{\"ed25519:1\":\"sig\"}}}],\"event\":{\"room_id\":\"!room:example.org\",\"sender\":\"@alice:example.org\",\"origin_server_ts\":1000,\"type\":\"m.room.message\",\"content\":{\"msgtype\":\"m.text\",\"body\":\"hi\"},\"prev_events\":[\"$Rqnc-F-dvnEYJTyHq_iKxU2bZ1CI92-kuZq3a5lr5Zg\"],\"depth\":12,\"auth_events\":[],\"hashes\":{\"sha256\":\"x\"},\"signatures\":{\"example.org\":{\"ed25519:1\":\"sig\"}}},\"members_omitted\":true,\"servers_in_room\":[\"example.org\",\"matrix.org\"]}",
+    "200\nContent-Type: application/json\n\n{\"auth_chain\":[],\"state\":[]}",
+];
+const HTTP_R_GET_PUSHRULES: &[&str] = &[
+    "200\nContent-Type: application/json\n\n{\"global\":{\"content\":[{\"actions\":[\"notify\",{\"set_tweak\":\"sound\",\"value\":\"default\"},{\"set_tweak\":\"highlight\"}],\"default\":true,\"enabled\":true,\"pattern\":\"alice\",\"rule_id\":\".m.rule.contains_user_name\"}],\"override\":[{\"actions\":[],\"conditions\":[],\"default\":true,\"enabled\":false,\"rule_id\":\".m.rule.master\"},{\"actions\":[\"notify\"],\"conditions\":[{\"kind\":\"event_match\",\"key\":\"content.msgtype\",\"pattern\":\"m.notice\"},{\"kind\":\"room_member_count\",\"is\":\"2\"},{\"kind\":\"sender_notification_permission\",\"key\":\"room\"},{\"kind\":\"event_property_is\",\"key\":\"k\",\"value\":1},{\"kind\":\"event_property_contains\",\"key\":\"k\",\"value\":\"x\"}],\"default\":false,\"enabled\":true,\"rule_id\":\"mine\"}],\"room\":[{\"actions\":[],\"default\":false,\"enabled\":true,\"rule_id\":\"!room:example.org\"}],\"sender\":[{\"actions\":[],\"default\":false,\"enabled\":true,\"rule_id\":\"@alice:example.org\"}],\"underride\":[]}}",
+    "200\nContent-Type: application/json\n\n{\"global\":{}}",
+];
+const HTTP_R_GET_STATE: &[&str] = &[
+    "200\nContent-Type: application/json\n\n[{\"content\":{\"join_rule\":\"public\"},\"event_id\":\"$1:example.org\",\"origin_server_ts\":1,\"room_id\":\"!r:example.org\",\"sender\":\"@a:example.org\",\"state_key\":\"\",\"type\":\"m.room.join_rules\"},{\"content\":{\"membership\":\"join\"},\"event_id\":\"$2:example.org\",\"origin_server_ts\":2,\"room_id\":\"!r:example.org\",\"sender\":\"@a:example.org\",\"state_key\":\"@a:example.org\",\"type\":\"m.room.member\"}]",
+    "200\nContent-Type: application/json\n\n[]",
+];
+
 const HTTP_R_GET_CONTENT_RESPONSE: &[&str] = &[
     "200\nContent-Type: image/png\nContent-Disposition: attachment; filename*=utf-8''%E2%82%AC%20rates.png\n\n\u{89}PNG binary",
     "200\nContent-Disposition: inline; filename=\"a b.txt\"\n\nhello",
@@ -336,6 +368,13 @@ pub fn embedded(name: &str) -> Vec<Vec<u8>> {
         "http.r.server_keys_response" => strs(HTTP_R_SERVER_KEYS_RESPONSE),
         "http.r.get_content_response" => strs(HTTP_R_GET_CONTENT_RESPONSE),
         "http.r.fed_media_content" | "http.r.fed_media_thumbnail" => strs(HTTP_R_FED_MEDIA),
+        "http.r.store_invitation" => strs(HTTP_R_STORE_INVITATION),
+        "http.r.lookup_3pid" => strs(HTTP_R_LOOKUP_3PID),
+        "http.r.get_missing_events" => strs(HTTP_R_GET_MISSING_EVENTS),
+        "http.r.send_transaction" => strs(HTTP_R_SEND_TRANSACTION),
+        "http.r.create_join" => strs(HTTP_R_CREATE_JOIN),
+        "http.r.get_pushrules" => strs(HTTP_R_GET_PUSHRULES),
+        "http.r.get_state" => strs(HTTP_R_GET_STATE),
         "stateres.auth_types" | "stateres.auth_check" | "stateres.resolve" => strs(STATERES),
         _ => Vec::new(),
     }
